@@ -17,6 +17,15 @@ import (
 //	global g mutable funcref global: imported from GlobFrom ("g") or defined here
 //	         (initially null); exported as "g" when ExpGlob
 //	global   tag (mutable i32, private): makes results instance specific
+//	memory   1 page, max 3 (capacity = 1 page, so growing reallocates): imported from MemFrom
+//	         ("mem") or defined here; always exported as "mem"
+//	segments one passive data segment (8 bytes depending on ID) and one passive element
+//	         segment [f0 f1], used by minit/tinit and dropped by ddrop/edrop
+//
+// Besides f0 an importer (ImpFrom) imports the memory/segment functions mload, mstore, msize,
+// mgrow, minit, ddrop, tinit, edrop of that instance and re-exports them as xload, ... : code of
+// the (possibly closed) exporting instance run on behalf of a live one. Without import the
+// x-functions call the module's own ones.
 //
 // f0/f1 return tag*1000 + ID*10 + k.
 type modSpec struct {
@@ -29,10 +38,11 @@ type modSpec struct {
 	Elem     int    `json:"elem"`                // -1, or the slot of table 0 initialised by an active element segment
 	ElemImp  bool   `json:"elem_imp,omitempty"`  // the element segment names the IMPORTED function imp0 instead of f1
 	GlobInit int    `json:"glob_init,omitempty"` // own funcref global starts as 0: null, 1: ref.func f0, 2: ref.func imp0 (imported function)
+	MemFrom  string `json:"mem_from,omitempty"`  // module name the memory "mem" is imported from, "" = own (1 page, max 3)
 }
 
 func (s modSpec) String() string {
-	return fmt.Sprintf("{id=%d imp=%q tab=%q exptab=%v glob=%q expglob=%v elem=%d elemimp=%v globinit=%d}", s.ID, s.ImpFrom, s.TabFrom, s.ExpTab, s.GlobFrom, s.ExpGlob, s.Elem, s.ElemImp, s.GlobInit)
+	return fmt.Sprintf("{id=%d imp=%q tab=%q exptab=%v glob=%q expglob=%v elem=%d elemimp=%v globinit=%d mem=%q}", s.ID, s.ImpFrom, s.TabFrom, s.ExpTab, s.GlobFrom, s.ExpGlob, s.Elem, s.ElemImp, s.GlobInit, s.MemFrom)
 }
 
 const tableSlots = 3
@@ -47,7 +57,20 @@ var probeExports = []struct {
 }{
 	{"self", false, true}, {"calli", false, false}, {"callg", false, false}, {"gnull", false, true},
 	{"call0", true, false}, {"call1", true, false}, {"isnull0", true, true}, {"isnull1", true, true},
+	{"msize", false, true}, {"xsize", false, false}, {"mload", true, true}, {"xload", true, false},
 }
+
+// memFns are the state-changing memory/segment exports (step "mem"): name -> number of arguments.
+// The x-variants run the function of the instance ImpFrom names (the own one without import).
+var memFns = map[string]int{
+	"mstore": 2, "mgrow": 1, "minit": 1, "ddrop": 0, "tinit": 1, "edrop": 0,
+	"xstore": 2, "xgrow": 1, "xinit": 1, "xddrop": 0, "xtinit": 1, "xedrop": 0,
+}
+
+var memFnNames = []string{"mstore", "mgrow", "minit", "ddrop", "tinit", "edrop", "xstore", "xgrow", "xinit", "xddrop", "xtinit", "xedrop"}
+
+// baseOf maps an x-variant to the function it forwards to.
+var baseOf = map[string]string{"xstore": "mstore", "xgrow": "mgrow", "xinit": "minit", "xddrop": "ddrop", "xtinit": "tinit", "xedrop": "edrop", "xload": "mload", "xsize": "msize"}
 
 func buildModule(s modSpec) []byte {
 	const (
@@ -63,6 +86,29 @@ func buildModule(s modSpec) []byte {
 	if hasImp {
 		imp0 = m.ImportFunc(s.ImpFrom, "f0", nil, []byte{i32})
 	}
+	// the memory/segment functions of the instance f0 is imported from
+	type sig struct {
+		name string
+		p, r []byte
+	}
+	memSigs := []sig{
+		{"mload", []byte{i32}, []byte{i32}}, {"mstore", []byte{i32, i32}, nil}, {"msize", nil, []byte{i32}},
+		{"mgrow", []byte{i32}, []byte{i32}}, {"minit", []byte{i32}, nil}, {"ddrop", nil, nil},
+		{"tinit", []byte{i32}, nil}, {"edrop", nil, nil},
+	}
+	impMem := map[string]uint32{}
+	if hasImp {
+		for _, sg := range memSigs {
+			impMem[sg.name] = m.ImportFunc(s.ImpFrom, sg.name, sg.p, sg.r)
+		}
+	}
+	memLimits := wasmenc.Limits(1, 3, false)
+	if s.MemFrom != "" {
+		m.Imports = append(m.Imports, wasmenc.Import{Mod: s.MemFrom, Name: "mem", Kind: wasmenc.KMem, Desc: memLimits})
+	} else {
+		m.Mems = append(m.Mems, memLimits)
+	}
+	m.Exports = append(m.Exports, wasmenc.Export{Name: "mem", Kind: wasmenc.KMem, Idx: 0})
 	tabType := wasmenc.TableType(fr, tableSlots, -1)
 	if s.TabFrom != "" {
 		m.Imports = append(m.Imports, wasmenc.Import{Mod: s.TabFrom, Name: "tab", Kind: wasmenc.KTable, Desc: tabType})
@@ -125,14 +171,44 @@ func buildModule(s modSpec) []byte {
 	calli := m.AddFunc(nil, []byte{i32}, nil, wasmenc.NewB().Call(third).Bytes())
 	exp("calli", calli)
 	exp("self", m.AddFunc(nil, []byte{i32}, nil, wasmenc.NewB().Call(f0).Bytes()))
-	// long(slot): suspend inside the host, then use the import and (if set) the slot of table 0.
+	// addr(k): 0 -> 0, 1 -> 16, 2 -> 65544 (second page: out of bounds until the memory has grown)
+	addr := func(b *wasmenc.B) *wasmenc.B {
+		return b.I32Const(65544).LocalGet(0).I32Const(16).Raw(wasmenc.OpI32Mul).LocalGet(0).I32Const(2).Raw(wasmenc.OpI32Eq).Select()
+	}
+	own := map[string]uint32{}
+	own["mload"] = m.AddFunc([]byte{i32}, []byte{i32}, nil, addr(wasmenc.NewB()).Mem(wasmenc.OpI32Load, 2, 0).Bytes())
+	own["mstore"] = m.AddFunc([]byte{i32, i32}, nil, nil, addr(wasmenc.NewB()).LocalGet(1).Mem(wasmenc.OpI32Store, 2, 0).Bytes())
+	own["msize"] = m.AddFunc(nil, []byte{i32}, nil, wasmenc.NewB().MemorySize().Bytes())
+	own["mgrow"] = m.AddFunc([]byte{i32}, []byte{i32}, nil, wasmenc.NewB().LocalGet(0).MemoryGrow().Bytes())
+	own["minit"] = m.AddFunc([]byte{i32}, nil, nil, addr(wasmenc.NewB()).I32Const(0).I32Const(8).MemoryInit(0).Bytes())
+	own["ddrop"] = m.AddFunc(nil, nil, nil, wasmenc.NewB().DataDrop(0).Bytes())
+	// element segment 1 is the passive one [f0 f1]: tinit(slot) copies f1 into table 0
+	own["tinit"] = m.AddFunc([]byte{i32}, nil, nil, wasmenc.NewB().LocalGet(0).I32Const(1).I32Const(1).TableInit(1, 0).Bytes())
+	own["edrop"] = m.AddFunc(nil, nil, nil, wasmenc.NewB().ElemDrop(1).Bytes())
+	for _, sg := range memSigs {
+		exp(sg.name, own[sg.name])
+		target := own[sg.name]
+		if hasImp {
+			target = impMem[sg.name]
+		}
+		b := wasmenc.NewB()
+		for i := range sg.p {
+			b.LocalGet(uint32(i))
+		}
+		xname := map[string]string{"mload": "xload", "mstore": "xstore", "msize": "xsize", "mgrow": "xgrow", "minit": "xinit", "ddrop": "xddrop", "tinit": "xtinit", "edrop": "xedrop"}[sg.name]
+		exp(xname, m.AddFunc(sg.p, sg.r, nil, b.Call(target).Bytes()))
+	}
+	m.Datas = append(m.Datas, wasmenc.PassiveData([]byte{byte(0x10 + s.ID), byte(0x20 + s.ID), byte(0x30 + s.ID), 0x44, 0x55, 0x66, 0x77, byte(s.ID)}))
+	m.DataCnt = true
+	// long(slot): suspend inside the host, then use the import, (if set) the slot of table 0 and
+	// the memory size as this instance's code sees it.
 	exp("long", m.AddFunc([]byte{i32}, []byte{i32}, []byte{i32}, wasmenc.NewB().
 		Call(block).
 		Call(calli).LocalSet(1).
 		LocalGet(0).TableGet(0).RefIsNull().Raw(wasmenc.OpI32Eqz).If().
 		LocalGet(1).I32Const(7).Raw(wasmenc.OpI32Mul).LocalGet(0).CallIndirect(0, 0).Raw(wasmenc.OpI32Add).LocalSet(1).
 		End().
-		LocalGet(1).Bytes()))
+		LocalGet(1).MemorySize().I32Const(1000000).Raw(wasmenc.OpI32Mul).Raw(wasmenc.OpI32Add).Bytes()))
 
 	if s.ExpTab {
 		m.Exports = append(m.Exports, wasmenc.Export{Name: "tab", Kind: wasmenc.KTable, Idx: 0})
@@ -144,7 +220,7 @@ func buildModule(s modSpec) []byte {
 	if hasImp {
 		decl = append(decl, imp0)
 	}
-	m.Elems = append(m.Elems, wasmenc.DeclElemFuncs(decl))
+	m.Elems = append(m.Elems, wasmenc.DeclElemFuncs(decl), wasmenc.PassiveElemFuncs([]uint32{f0, f1}))
 	if s.Elem >= 0 && s.Elem < tableSlots {
 		ef := f1
 		if s.ElemImp && hasImp {
